@@ -43,6 +43,33 @@ pub fn scenario(prop: &str, seed: u64, thorough: bool) -> Scenario {
     sc
 }
 
+/// Now and then a world far larger than usual: thresholds in the code under test (batch sizes,
+/// caps, "first N" shortcuts) only show beyond a certain number of files, blocks or lines.
+fn maybe_big(cfg: &mut GenCfg, rng: &mut Rng, tags: &mut Vec<String>) {
+    if !rng.chance(1, 40) {
+        return;
+    }
+    match rng.below(3) {
+        0 => {
+            cfg.files = (12, 34);
+            cfg.blocks = (1, 2);
+            tags.push("big=files".into());
+        }
+        1 => {
+            cfg.files = (1, 2);
+            cfg.blocks = (24, 70);
+            cfg.max_lines = 3;
+            tags.push("big=blocks".into());
+        }
+        _ => {
+            cfg.files = (1, 3);
+            cfg.blocks = (1, 3);
+            cfg.max_lines = 120;
+            tags.push("big=lines".into());
+        }
+    }
+}
+
 fn block_count(w: &World) -> usize {
     let mut n = 0;
     for f in &w.files {
@@ -104,8 +131,10 @@ fn c11(seed: u64, thorough: bool) -> Scenario {
         p_affects: 30,
         ..Default::default()
     };
-    g.gen_files(&cfg);
+    let mut cfg = cfg;
     let mut tags = Vec::new();
+    maybe_big(&mut cfg, g.rng, &mut tags);
+    g.gen_files(&cfg);
     let mode = g.rng.below(100);
     if mode < 45 {
         g.world.stdin = StdinSpec::Terminal;
@@ -429,6 +458,9 @@ fn c13(seed: u64, thorough: bool) -> Scenario {
         p_clean: 85,
         ..Default::default()
     };
+    let mut cfg = cfg;
+    let mut big_tags = Vec::new();
+    maybe_big(&mut cfg, g.rng, &mut big_tags);
     g.gen_files(&cfg);
     let kind = *g.rng.pick(MALFORMATIONS);
     let (block, carrier) = malformed_block(&mut g, kind);
@@ -475,6 +507,7 @@ fn c13(seed: u64, thorough: bool) -> Scenario {
     }
     make_healthy_except(&mut g.world, &carrier_path);
     let mut tags = vec![format!("kind={kind}"), format!("carrier={carrier}")];
+    tags.extend(big_tags);
     let want_failed;
     if variant < 70 {
         want_failed = true;
@@ -945,8 +978,10 @@ fn c18(seed: u64, thorough: bool) -> Scenario {
         severities: true,
         ..Default::default()
     };
-    g.gen_files(&cfg);
+    let mut cfg = cfg;
     let mut tags = Vec::new();
+    maybe_big(&mut cfg, g.rng, &mut tags);
+    g.gen_files(&cfg);
     g.world.env.lua_mode = match g.rng.below(8) {
         0 => None,
         1 => Some("sandboxed".into()),
@@ -1071,8 +1106,13 @@ fn c19(seed: u64, thorough: bool) -> Scenario {
         p_affects: 0,
         ..Default::default()
     };
-    g.gen_files(&cfg);
+    let mut cfg = cfg;
     let mut tags = Vec::new();
+    maybe_big(&mut cfg, g.rng, &mut tags);
+    if tags.iter().any(|t| t.starts_with("big=")) {
+        cfg.p_ai = 45; // keep the number of simulated HTTP exchanges of a big world in check
+    }
+    g.gen_files(&cfg);
     let roll = g.rng.below(100);
     let mut env_fault: Option<&str> = None;
     if roll < 45 {
@@ -1338,6 +1378,11 @@ pub fn stats(sc: &Scenario, reports: &[ChildReport]) -> ScenarioStats {
             }
         }
         bump(&mut st.probes, &format!("expected_{}", r.expected_kind));
+        for t in &sc.tags {
+            if t.starts_with("big=") {
+                bump(&mut st.probes, t);
+            }
+        }
     }
     st.interleaving = fnv_hex(&inter);
     let (w0, _) = &sc.runs[0];
